@@ -188,8 +188,13 @@ fn generate_global_branch(
                     cachelito_core::InvalidationRegistry::global().register_callback(
                         #fn_name_str,
                         move || {
+                            // Empty map and queue in ONE critical section (queue lock first, as in
+                            // `insert`): a concurrent insert between two separate sections would
+                            // leave a stored key the queue does not know, which can then never be
+                            // evicted and does not count against the limit
+                            let mut order = #order_ident.lock();
                             #cache_ident.write().clear();
-                            #order_ident.lock().clear();
+                            order.clear();
                         }
                     );
                 });
